@@ -13,11 +13,11 @@ import (
 )
 
 type tItem struct {
-	Kind         byte   // 'x' text, 'o' object, 't' tag
-	Text         string // text
-	Name         string // tag name (\w+)
-	Args         string // object expression / tag arguments ("" = none)
-	TrimL, TrimR bool
+	Kind          byte   // 'x' text, 'o' object, 't' tag
+	Text          string // text
+	Name          string // tag name (\w+)
+	Args          string // object expression / tag arguments ("" = none)
+	TrimL, TrimR  bool
 	WsL, WsM, WsR string // white space after the left delimiter (and hyphen), between tag name and args, before the right delimiter (and hyphen)
 }
 
